@@ -164,7 +164,8 @@ func vpxWriteTemp(content string) string {
 // has no modulus at all) is refused with an error - by NewPublicKeyFromBytes
 // and by NewPublicKeyFromFile - and an accepted key has system parameters.
 func vpC18_O3() {
-	lengths := []int{0, 512, 1000, 1024, 1025, 2048, 4096}
+	// (every supported length with its neighbours and the neighbouring whole-byte lengths)
+	lengths := []int{0, 1, 512, 1000, 1016, 1017, 1023, 1024, 1025, 1031, 1032, 2040, 2041, 2047, 2048, 2049, 2055, 2056, 4088, 4089, 4095, 4096, 4097, 4103, 4104}
 	nbits := lengths[vpChoose("nbits", len(lengths))]
 	supported := nbits == 1024 || nbits == 2048 || nbits == 4096
 	doc := vpxKeyXML(nbits)
